@@ -43,7 +43,7 @@ def fake_opacity_class():
         def __init__(self, molecule, wn, T, P_pa, xsec_cm2, interpolation_mode='linear'):
             super().__init__('Fake:' + molecule, interpolation_mode=interpolation_mode)
             self._mol = molecule
-            self._wn = np.asarray(wn, dtype=float)
+            self._wn = np.asarray(wn) if np.asarray(wn).dtype.kind == 'i' else np.asarray(wn, dtype=float)
             self._T = np.asarray(T, dtype=float)
             self._P = np.asarray(P_pa, dtype=float)
             self._x = np.asarray(xsec_cm2, dtype=float)
@@ -80,7 +80,7 @@ def fake_cia_class():
     class FakeCIA(CIA):
         def __init__(self, pair, wn, T, xsec):
             super().__init__('FakeCIA:' + pair, pair)
-            self._wn = np.asarray(wn, dtype=float)
+            self._wn = np.asarray(wn) if np.asarray(wn).dtype.kind == 'i' else np.asarray(wn, dtype=float)
             self._T = np.asarray(T, dtype=float)
             self._x = np.asarray(xsec, dtype=float)      # (nT, nwn)   m^5
 
@@ -117,6 +117,11 @@ def wn_grid(rng, n, kind=None, lo=None, hi=None):
         for i in range(1, n):      # strictly increasing
             if g[i] <= g[i - 1]:
                 g[i] = np.nextafter(g[i - 1], np.inf) + 1e-6 * (hi - lo)
+    if rng.random() < 0.06 and hi - lo > 4 * n:
+        # a wavenumber axis built with np.arange(...) / typed as whole numbers: integer dtype, passed through as it is
+        gi = np.unique(np.round(g)).astype(np.int64)
+        if len(gi) == n:
+            return gi
     return g
 
 
